@@ -316,12 +316,6 @@ func (g *schemaGenerator) generateDeclaredType(t *schemas.Type, scope nameScope)
 
 		for _, f := range tt.Fields {
 			if f.DefaultValue != nil {
-				if f.Name == additionalProperties {
-					g.output.file.Package.AddImport("reflect", "")
-					g.output.file.Package.AddImport("strings", "")
-					g.output.file.Package.AddImport("github.com/go-viper/mapstructure/v2", "")
-				}
-
 				validators = append(validators, &defaultValidator{
 					jsonName:         f.JSONName,
 					fieldName:        f.Name,
@@ -334,6 +328,16 @@ func (g *schemaGenerator) generateDeclaredType(t *schemas.Type, scope nameScope)
 		}
 
 		if t.IsSubSchemaTypeElem() || len(validators) > 0 {
+			// The unmarshaler of a struct with additional properties uses these
+			// packages whether or not the map field has a default.
+			for _, f := range tt.Fields {
+				if f.Name == additionalProperties {
+					g.output.file.Package.AddImport("reflect", "")
+					g.output.file.Package.AddImport("strings", "")
+					g.output.file.Package.AddImport("github.com/go-viper/mapstructure/v2", "")
+				}
+			}
+
 			g.generateUnmarshaler(decl, validators)
 		}
 
